@@ -33,7 +33,7 @@ def obsOf (impl : Json) : Obs :=
   let nNS := natD errs "svc-not-started"
   let nOther := natD errs "svc-already-stopped" + natD errs "other"
   let totalCalls := ["logProvider", "recoveryProvider", "upkeepGetter", "eventsProvider", "pipeline", "stateUpdater", "resultStoreGC",
-    "v2PerformLogs", "v2StaleLogs", "v2ActiveUpkeeps"].foldl
+    "v2PerformLogs", "v2StaleLogs", "v2ActiveUpkeeps", "v2CoordEncoder", "v2ObsEncoder", "v2CheckUpkeep"].foldl
     (fun a k => a + natD calls k) 0
   let within := intD impl "resumedWithinNs"
   { survived := boolD impl "survived" false, closeCalled := boolD impl "closeCalled" false, closeReturned := boolD impl "closeReturned" false,
